@@ -1,7 +1,7 @@
 import Driver.Stream
 import Obao.Model.PKIRevoke
 /-! Stateful stream `pkirevoke` (C16).  Ops (tab-separated fields):
-`addissuer` · `delissuer i` · `issue i L|S|M` · `craft i` · `revoke k serial|cert` · `rotate` · `tidy cs rc assoc`
+`addissuer` · `delissuer i` · `issue i L|S|M` · `craft i X|V` · `importissuer k` (k = 0: fresh serial, else the serial of certificate #k) · `revoke k serial|cert` · `rotate` · `tidy cs rc assoc`
 · `config a d x` (each 0, 1 or `-`) · `restart` · `tick d` · `obs`.
 `revoke`/`rotate` may carry `fault <class> <observed writes>` (one storage operation of the request failed; the
 writes that took effect before it are an input because the order of per-issuer CRL writes is Go map order; the
@@ -72,6 +72,7 @@ def showRes : Res → String
   | .expired => "ok:expired"
   | .notFound => "err:notfound"
   | .noSigner => "err:nosigner"
+  | .isIssuer => "err:isissuer"
   | .noIssuer => "err:noissuer"
   | .badOp => "bad-op"
 
@@ -155,7 +156,15 @@ def parseOp? : List String → Option (Op × List String)
     match i.toNat?, (match cls with | "L" => some 3600 | "S" => some 1 | "M" => some 4 | _ => none) with
     | some i, some ttl => some (.issue i ttl, rest)
     | _, _ => none
-  | "craft" :: i :: rest => i.toNat?.map fun i => (.craft i, rest)
+  | "craft" :: i :: cls :: rest =>
+    match i.toNat?, (match cls with | "X" => some false | "V" => some true | _ => none) with
+    | some i, some v => some (.craft i v, rest)
+    | _, _ => none
+  | "importissuer" :: col :: rest =>
+    match col.toNat? with
+    | some 0 => some (.importIssuer none, rest)
+    | some (k + 1) => some (.importIssuer (some k), rest)
+    | none => none
   | "revoke" :: k :: mode :: rest =>
     match k.toNat?, (match mode with | "serial" => some false | "cert" => some true | _ => none) with
     | some (k + 1), some byCert => some (.revoke k byCert, rest)
@@ -175,7 +184,7 @@ def parseOp? : List String → Option (Op × List String)
 
 /-- requests whose answer line carries the write trace; only `revoke` and `rotate` may be cut -/
 def traced : Op → Bool
-  | .issue .. | .craft _ | .restart | .tick _ => false
+  | .issue .. | .craft .. | .restart | .tick _ => false
   | _ => true
 def cuttable : Op → Bool
   | .revoke .. | .rotate => true
